@@ -94,7 +94,7 @@ def strIncrFloat (db : DB) (k : Bytes) (d : Dyadic) (now : Int) : Res :=
   | .invalid => .err .valueType db
   | .unknown => .err .outOfDomain db
   | .val x =>
-    match formatFloatDec (x + d) with
+    match formatFloatDec (f64add x d) with
     | none =>
       -- the text of the sum is outside the modelled domain; whether the key upsert fails does not depend on it
       (match strUpdate1 db k now with
@@ -103,7 +103,7 @@ def strIncrFloat (db : DB) (k : Bytes) (d : Dyadic) (now : Int) : Res :=
     | some txt =>
       match strUpdateTx db k txt now with
       | (.error e, d') => .err e d'
-      | (.ok _, d') => .ok (.score (.fin (x + d))) d'
+      | (.ok _, d') => .ok (.score (.fin (f64add x d))) d'
 
 /-- items are applied in the given order (Go iterates the map in an unspecified order; the
 driver tries every order) -/
